@@ -24,14 +24,18 @@ class Outcome(object):
 
 
 def eval_sub(spec, s):
-    """Returns (Outcome, calls, work_time, retry_sleep_time) for submission id `s`.
+    return _eval(spec, s)[:4]
+
+
+def _eval(spec, s):
+    """Returns (Outcome, calls, work_time, retry_sleep_time, delays) for submission id `s`.
 
     work_time: virtual seconds the submission itself needs if nothing else competes
     (callable durations + poll waits); retry_sleep_time: sum of configured back-off delays."""
     sub = spec["subs"][str(s)]
     script = sub.get("script") or (["ErrA"] * sub.get("fail", 0) + ["ok"])
     layers = spec["layers"]
-    st = {"calls": 0, "work": 0.0, "sleep": 0.0, "unknown": False}
+    st = {"calls": 0, "work": 0.0, "sleep": 0.0, "unknown": False, "delays": []}
 
     def base():
         st["calls"] += 1
@@ -112,7 +116,20 @@ def eval_sub(spec, s):
                 o = level(i - 1)
                 if o.kind == "unknown":
                     return o
-                if p:
+                if p and p.get("kind") == "exception":
+                    if o.kind == "val" or attempt >= p.get("max_attempts", 3):
+                        return o
+                    bases = p.get("exception_base")
+                    if bases is not None:
+                        if o.kind != "exc":
+                            return o
+                        cls = ERR_CLASSES[o.cls]
+                        if not any(issubclass(cls, ERR_CLASSES[b]) for b in bases):
+                            return o
+                    d = min(p.get("sleep", 1.0) * (p.get("exponent", 2.0) ** (attempt - 1)), p.get("max_sleep", 120))
+                    st["sleep"] += d
+                    st["delays"].append(d)
+                elif p:
                     if p.get("raise_should") == attempt:
                         return o
                     retry = attempt < p.get("max", 3) and (o.kind != "val" if p.get("on", "exc") == "exc" else True)
@@ -121,6 +138,7 @@ def eval_sub(spec, s):
                     if not retry:
                         return o
                     st["sleep"] += p.get("sleep", 0)
+                    st["delays"].append(p.get("sleep", 0))
                 else:
                     if o.kind == "val" or attempt >= L.get("max_attempts", 3):
                         return o
@@ -132,8 +150,9 @@ def eval_sub(spec, s):
                         cls = ERR_CLASSES[o.cls]
                         if not any(issubclass(cls, ERR_CLASSES[b]) for b in bases):
                             return o
-                    st["sleep"] += min(L.get("sleep", 1.0) * (L.get("exponent", 2.0) ** (attempt - 1)),
-                                       L.get("max_sleep", 120))
+                    d = min(L.get("sleep", 1.0) * (L.get("exponent", 2.0) ** (attempt - 1)), L.get("max_sleep", 120))
+                    st["sleep"] += d
+                    st["delays"].append(d)
                 attempt += 1
         if t == "poll":
             o = level(i - 1)
@@ -150,12 +169,14 @@ def eval_sub(spec, s):
     if st["unknown"]:
         # an error_fn turned a library-made exception (TypeError text) into a value: the model
         # does not predict that text, so neither outcome nor invocation count is claimed
-        return Outcome("unknown"), None, st["work"], st["sleep"]
-    return o, st["calls"], st["work"], st["sleep"]
+        return Outcome("unknown"), None, st["work"], st["sleep"], st["delays"]
+    return o, st["calls"], st["work"], st["sleep"], st["delays"]
 
 
-def flat_default_is_identity(spec):
-    return True
+def eval_full(spec, s):
+    """Like eval_sub, as a dict that also has the list of expected back-off delays."""
+    (o, calls, work, slp, delays) = _eval(spec, s)
+    return {"outcome": o, "calls": calls, "work": work, "sleep": slp, "delays": delays}
 
 
 def matches(env, o, fut_state):
